@@ -2083,7 +2083,6 @@ parse_citation:
 		default:
 			fprintf(stderr, "Unknown token type: %d (%lu:%lu)\n", t->type, t->start, t->len);
 			token_describe(t, source);
-			exit(0);
 			break;
 	}
 
